@@ -7,7 +7,7 @@ C05 - Prebuild followed by text generation reproduces the program.
   C05-CHAIN      succession associations are read in the direction in which they are written (R661, R816, R604)
   C05-ROLES      operand roles: grammar position -> Node field -> association number -> text position is the identity
   C05-LITERALS   inverse pairs of literal / operator / phrase / relationship-number encodings
-  C05-SENTENTIAL (thorough) every text a generator can emit derives from the grammar symbol of its construct
+  C05-SENTENTIAL every text a generator can emit derives from the grammar symbol of its construct
 '''
 import ast
 
@@ -44,13 +44,8 @@ def run(ctx):
     ctx.guard(chain_rule, ctx)
     ctx.guard(roles, ctx)
     ctx.guard(literals, ctx)
-    if ctx.thorough():
-        try:
-            from . import sentential
-        except ImportError:
-            sentential = None
-        if sentential is not None:
-            sentential.rule(ctx)
+    from . import sentential
+    ctx.guard(sentential.rule, ctx)
     ctx.assume('name resolution (o_obj, s_sync, r_rel ... look-ups) succeeds: programs are well-formed and name-resolved')
     return ('Exhaustiveness of prebuild handlers against the grammar and of text generators against the kinds prebuild creates; '
             'schema type-check of every navigation in sourcegen.py; direction agreement of writer and reader on the three '
